@@ -293,7 +293,7 @@ theorem install_supp (cfg : Cfg) (rank : Name → Nat) (hdag : NameDag cfg.db ra
       rcases hdepth with h1 | h1
       · exact h1
       · rw [hsp] at h1; cases h1
-    have hskip : ((sd.ver.1 == d.ver.1 || sd.dir == d.dir) && decide (depth > 0)) = true := by simp [hver, hpos]
+    have hskip : ((sd.ver.1 == d.ver.1 || (sd.dir == d.dir && d.dir != noneDir)) && decide (depth > 0)) = true := by simp [hver, hpos]
     simp only [hskip, if_true] at h
     simp at h; subst h
     exact ⟨hs, fun _ _ h => h, hd⟩
@@ -719,7 +719,7 @@ theorem install_req (cfg : Cfg) (S : Name → Prop) (hmd : cfg.maxDepth = none) 
       rcases hdepth with h1 | h1
       · exact h1
       · rw [hsp] at h1; cases h1
-    have hskip : ((sd.ver.1 == d.ver.1 || sd.dir == d.dir) && decide (depth > 0)) = true := by simp [hver, hpos]
+    have hskip : ((sd.ver.1 == d.ver.1 || (sd.dir == d.dir && d.dir != noneDir)) && decide (depth > 0)) = true := by simp [hver, hpos]
     simp only [hskip, if_true] at h
     simp at h; subst h
     exact ⟨hq, fun _ _ h => h, hd, ⟨sd.ver, hrs⟩⟩
